@@ -96,12 +96,24 @@ func setClientSubnet(req *bfe_basic.Request, dnsMsg *dns.Msg) {
 		Address:       cip,
 	}
 
-	opt := new(dns.OPT)
-	opt.Hdr.Name = "."
-	opt.Hdr.Rrtype = dns.TypeOPT
-	opt.SetUDPSize(dns.DefaultMsgSize)
-	opt.Option = append(opt.Option, subnet)
-	dnsMsg.Extra = append(dnsMsg.Extra, opt)
+	// a message carries at most one OPT record (RFC 6891): use the one of the query if there is one
+	opt := dnsMsg.IsEdns0()
+	if opt == nil {
+		opt = new(dns.OPT)
+		opt.Hdr.Name = "."
+		opt.Hdr.Rrtype = dns.TypeOPT
+		opt.SetUDPSize(dns.DefaultMsgSize)
+		dnsMsg.Extra = append(dnsMsg.Extra, opt)
+	}
+
+	// the subnet is that of the connecting client: replace one supplied in the query
+	options := make([]dns.EDNS0, 0, len(opt.Option)+1)
+	for _, o := range opt.Option {
+		if o.Option() != dns.EDNS0SUBNET {
+			options = append(options, o)
+		}
+	}
+	opt.Option = append(options, subnet)
 }
 
 func RequestToDnsMsg(req *bfe_basic.Request) (*dns.Msg, error) {
